@@ -95,6 +95,7 @@ func init() {
 			compSorts[c.name] = c.sort
 		}
 	}
+	compSorts["fe"] = "Int" // ghost: abstract ring value of a field element, stored at the element's first cell
 	for _, w := range []int{8, 16, 32, 64, 128} {
 		compSorts[fmt.Sprintf("bv%d", w)] = bvSort(w)
 		compSorts[fmt.Sprintf("fl%d", w)] = bvSort(w)
@@ -103,6 +104,9 @@ func init() {
 
 // genIntMode: set (under genMu) while generating a VC in integer mode: integer cells hold SMT Ints.
 var genIntMode bool
+
+// genRingMode: ring mode (an integer mode in which field elements are abstract ring values, see ringmode.go).
+var genRingMode bool
 
 func compSort(comp string) string {
 	if genIntMode && strings.HasPrefix(comp, "bv") {
